@@ -74,3 +74,8 @@ def run(P, C, engines):
         f = P.one("st_env1_ftz")
         hit = any(cal and (cal["name"] in _ed.FPENV_CALLS or (f.call_macro(i) or "") in _ed.FPENV_CALLS) for i, cal in f.calls())
         C.selftest("ENV-1", hit, "a write of MXCSR is recognised")
+    if "pr1" in engines:
+        from .rules import dp as _dp
+        fs = {f.name: f for f in P.functions.values() if f.unit == "selftest-cpp" and f.name.startswith("st_pr1")}
+        C.selftest("PR-1", bool(_dp.narrowings(fs["st_pr1_narrow"])) and not _dp.narrowings(fs["st_pr1_clean"]),
+                   "float accumulator in a double instantiation flagged, widening of a stored float silent")
